@@ -19,7 +19,7 @@ const key = "gear/middleware.go:SentinelMiddleware.func1"
 
 func main() {
 	probe.Init()
-	for _, cs := range probe.Plan() {
+	for cs, more := probe.Next(); more; cs, more = probe.Next() {
 		custom, sc := cs.Custom, cs.Sc
 		probe.SetCase(cs)
 		r := probe.New(key, sc, false) // the handler's error goes to gear, not back to the middleware
